@@ -354,6 +354,11 @@ def standard_grid(seed, thorough=False):
         dict(N=2, W=12, K=2, beta=1.0, beta_vec="const", lam=0.3, limit=2, m=2, biased=False, eps=0, joint=False, lengths=[64], regimes=2),
         dict(N=1, W=1, K=3, beta=0.0, lam=0.0, limit=30, m=1, biased=True, eps=0, joint=False, lengths=[75], regimes=3, offset=1e4),
     ]
+    # as many regimes as clusters and a large refill size: a cluster is starved in mid-run, refilled, and the run converges with
+    # every cluster populated (data seeds fixed: the event sequence was observed on the validated tree)
+    for jj in ((11, 59) if not thorough else (11, 59, 23, 131)):
+        cfgs.append({"N": 3, "W": 1, "K": 5, "beta": 10.0, "lam": 0.11, "limit": 30, "m": 10, "biased": False, "eps": 0, "joint": False,
+                     "lengths": [300], "data_seed": 1700 + jj, "rng_seed": 1700 + jj, "regimes": 5})
     for j, c in enumerate(div if thorough else div[:: 1]):
         c = dict(c)
         c["data_seed"] = 5000 + j + seed
